@@ -371,6 +371,8 @@ def gen_problem(rng, zones=None, names=None):
             q = 0.0
         nm = pool[i % len(pool)] if rng.random() < 0.9 else pool[0]
         streams.append(S(rng.choice(zs), nm, ts, tt, q, rng.choice([0.0, 2.5, 5.0, 10.0]), rng.choice([0.5, 1.0, 2.0])))
+        if rng.random() < 0.08:
+            streams.append(dict(streams[-1]))      # two parallel, identical units: the same row twice is two streams in every channel
     utils = []
     if rng.random() < 0.6:
         for j, t in enumerate(rng.sample(range(30, 420, 10), rng.randint(0, 2))):
@@ -620,7 +622,9 @@ def channels_suite(ctx):
     n = ctx.budget(24, 200)
     p_d8 = dict(streams=[S("A", "H1", 200, 100, 300), S("A", "C1", 50, 150, 200, 2.5), S("B", "H2", 120, 40, 80), S("B", "C2", 30, 90, 120)],
                 utilities=[U("HPS", "Hot", 250, 249), U("CW", "Cold", 10, 20)], options={})           # D8: the CSV channel must run at all
-    items = [(p_d8, None, True)] + [(gen_problem(rng), None, True) for _ in range(n)]
+    p_twin = dict(streams=[S("Evaporation", "Condenser", 140, 139, 300), S("Evaporation", "Condenser", 140, 139, 300), S("Evaporation", "Feed", 40, 120, 160)],
+                  utilities=[], options={})                                                            # identical rows are two streams
+    items = [(p_d8, None, True), (p_twin, None, True)] + [(gen_problem(rng), None, True) for _ in range(n)]
     opts_pool = [dict(DO_VERTICAL_GCC=True), dict(DO_ASSITED_HT=True, DO_BALANCED_CC=False), dict(DO_DIRECT_OPERATION_TARGETING=True), dict(DT_CONT=10.0)]
     items += [(gen_problem(rng), rng.choice(opts_pool), False) for _ in range(ctx.budget(6, 60))]
     # option values that are legal and falsy (0, 0.0, False) must travel through every channel like any other value
